@@ -37,6 +37,8 @@ pub struct Case {
     /// "" for the main family; a suffix put on obligation names for the sub-families that stretch the reading of the
     /// quantifier (start 0, start near u32::MAX, two objects with one number and different generations)
     pub tag: String,
+    /// which template the case came from (diagnostic, not used by the check)
+    pub label: String,
 }
 
 pub fn build_doc(c: &Case) -> Document {
@@ -63,6 +65,7 @@ pub fn case_json(c: &Case) -> Value {
         "bookmarks": c.bookmarks.iter().map(|(p, par)| json!({"page": [p.0, p.1], "parent": par})).collect::<Vec<_>>(),
         "start": c.start,
         "tag": c.tag,
+        "label": c.label,
     })
 }
 
@@ -76,6 +79,7 @@ pub fn case_from_json(v: &Value) -> Case {
             .map(|e| ((e["page"][0].as_u64().unwrap_or(0) as u32, e["page"][1].as_u64().unwrap_or(0) as u16), e["parent"].as_u64().map(|p| p as usize))).collect(),
         start: v["start"].as_u64().unwrap_or(1) as u32,
         tag: v["tag"].as_str().unwrap_or("").to_string(),
+        label: v["label"].as_str().unwrap_or("").to_string(),
     }
 }
 
@@ -255,9 +259,10 @@ pub fn postcondition(b: &Document, a: &Document, start: u32) -> Vec<(String, Str
     if nums != want {
         o.fail("ids-consecutive", format!("object numbers afterwards {:?}, expected {:?}", nums, want));
     }
-    if start as u64 + n >= 1 {
-        let last = start as u64 + n - 1;
-        if a.max_id as u64 != last { o.fail("max-id", format!("max_id {} but the last number is {}", a.max_id, last)); }
+    // "the maximum id equals the last one": the largest number in use (for an empty document: the one before start)
+    let last: Option<u64> = match nums.last() { Some(l) => Some(*l), None => (start as u64).checked_sub(1) };
+    if let Some(last) = last {
+        if a.max_id as u64 != last { o.fail("max-id", format!("max_id {} but the last object number is {}", a.max_id, last)); }
     }
     // 2. the graph, from the trailer
     o.cmp_dict(&b.trailer, &a.trailer);
@@ -412,6 +417,7 @@ fn instantiate(t: &Template, bm: usize, ids: &[ObjectId], dang: &[ObjectId], sta
         bookmarks: t.bookmark_sets[bm].iter().map(|(p, par)| (map_id(*p, ids, dang), *par)).collect(),
         start,
         tag: tag.to_string(),
+        label: t.label.clone(),
     }
 }
 
@@ -570,7 +576,7 @@ fn graph_template(sub: &SubB, mut code: u64, rot: usize, trailer: usize, ) -> Te
     };
     let mut flat: Vec<(ObjectId, Option<usize>)> = (0..n).map(|i| (sid(i), None)).collect();
     flat.push((did(0), if n > 0 { Some(0) } else { None }));
-    Template { label: "graph".into(), objs, trailer: tr, bookmark_sets: vec![vec![], flat] }
+    Template { label: format!("graph n={} rot={} trailer={}", n, rot, trailer), objs, trailer: tr, bookmark_sets: vec![vec![], flat] }
 }
 
 fn sub_families(thorough: bool) -> Vec<SubB> {
